@@ -434,3 +434,82 @@ Proof.
       rewrite strip_two_eq_snoc, strip_one_eq_snoc, strip_two_eq_snoc. reflexivity. }
   rewrite S4, MV, R. rewrite Z_to_bytes_to_Z. reflexivity.
 Qed.
+
+(* ------------------------------------------------------------------------------------------ *)
+(* BASE64 CANONICAL: a string the decoder accepts is exactly the encoder's output for the result
+   (so wrong padding, characters outside the alphabet, white space and non-zero discarded bits are
+   all rejected) *)
+
+Lemma b64_value_facts c : 0 <= b64_value c -> b64_value c < 64 /\ b64_char (b64_value c) = c /\ c <> 61%N.
+Proof.
+  unfold b64_value, b64_char. cbv zeta. intros H.
+  destruct ((65 <=? Z.of_N c) && (Z.of_N c <=? 90)) eqn:A.
+  { split; [lia|]. split; [|lia]. assert (E : (Z.of_N c - 65 <? 26) = true) by lia. rewrite E. lia. }
+  destruct ((97 <=? Z.of_N c) && (Z.of_N c <=? 122)) eqn:B.
+  { split; [lia|]. split; [|lia].
+    assert (E1 : (Z.of_N c - 97 + 26 <? 26) = false) by lia. assert (E2 : (Z.of_N c - 97 + 26 <? 52) = true) by lia.
+    rewrite E1, E2. lia. }
+  destruct ((48 <=? Z.of_N c) && (Z.of_N c <=? 57)) eqn:C.
+  { split; [lia|]. split; [|lia].
+    assert (E1 : (Z.of_N c - 48 + 52 <? 26) = false) by lia. assert (E2 : (Z.of_N c - 48 + 52 <? 52) = false) by lia.
+    assert (E3 : (Z.of_N c - 48 + 52 <? 62) = true) by lia. rewrite E1, E2, E3. lia. }
+  destruct (Z.of_N c =? 43) eqn:D; [split; [lia|]; split; [cbn; lia | lia]|].
+  destruct (Z.of_N c =? 47) eqn:E; [split; [lia|]; split; [cbn; lia | lia]|]. lia.
+Qed.
+
+Lemma cb_loop_some_nonneg from to inp : forall acc bits r, cb_loop from to acc bits inp = Some r ->
+  Forall (fun v => 0 <= v) inp.
+Proof.
+  intros acc bits r H. apply Forall_forall. intros v Hv.
+  destruct (Z_lt_le_dec v 0) as [Hn|Hp]; [|exact Hp].
+  rewrite cb_loop_negative in H by (exists v; auto). discriminate.
+Qed.
+
+Lemma strip_one_eq_cases l : strip_one_eq l = l \/ l = strip_one_eq l ++ [61%N].
+Proof.
+  unfold strip_one_eq. destruct (rev l) as [|c r] eqn:E; [left; reflexivity|].
+  destruct (c =? 61)%N eqn:C; [|left; reflexivity]. right. apply N.eqb_eq in C. subst c.
+  rewrite <- (rev_involutive l), E. reflexivity.
+Qed.
+
+Lemma strip_one_eq_idem_clean l : strip_one_eq l = l -> strip_one_eq (strip_one_eq l) = l.
+Proof. intros H. rewrite !H. reflexivity. Qed.
+
+Lemma base64_canonical s X : decode_base64 s = Some X -> encode_base64 X = Some s.
+Proof.
+  unfold decode_base64. destruct (length s mod 4 =? 0)%nat eqn:L4; [|discriminate]. cbn [negb].
+  apply Nat.eqb_eq in L4.
+  set (s' := strip_one_eq (strip_one_eq s)).
+  destruct (convert_bits 6 8 false (map b64_value s')) as [vs|] eqn:CB; [|discriminate].
+  intros H. inversion H; subst X. clear H.
+  (* every character of s' is in the alphabet *)
+  assert (NN : Forall (fun v => 0 <= v) (map b64_value s')).
+  { unfold convert_bits in CB. destruct (cb_loop 6 8 0 0 (map b64_value s')) as [[[a b] o]|] eqn:E; [|discriminate].
+    eapply cb_loop_some_nonneg; eauto. }
+  assert (D6 : digits_ok 6 (map b64_value s')).
+  { unfold digits_ok. rewrite Forall_forall in *. intros v Hv. specialize (NN v Hv).
+    apply in_map_iff in Hv. destruct Hv as [c [<- _]]. destruct (b64_value_facts c NN) as [F _]. change (2 ^ 6) with 64. lia. }
+  assert (Chars : map b64_char (map b64_value s') = s' /\ no_eq s').
+  { clear -NN. induction s' as [|c r IH]; [split; [reflexivity|constructor]|].
+    cbn [map] in *. inversion NN as [|? ? Hc Hr]; subst. destruct (b64_value_facts c Hc) as [_ [F2 F3]].
+    destruct (IH Hr) as [I1 I2]. rewrite F2, I1. split; [reflexivity|constructor; assumption]. }
+  destruct Chars as [CM NE].
+  destruct (convert_bits_canonical 8 6 (map b64_value s') vs ltac:(lia) D6 CB) as [D8 ENC].
+  unfold encode_base64. rewrite (bytes_to_Z_to_bytes vs D8), ENC, CM. f_equal.
+  (* s is s' followed by at most two '=' and its length is a multiple of 4 *)
+  assert (Sh : exists j, (j <= 2)%nat /\ s = s' ++ repeat 61%N j).
+  { unfold s'. destruct (strip_one_eq_cases s) as [E1|E1].
+    - exists 0%nat. rewrite !E1. cbn [repeat]. rewrite app_nil_r. split; [lia|reflexivity].
+    - destruct (strip_one_eq_cases (strip_one_eq s)) as [E2|E2].
+      + exists 1%nat. rewrite E2. split; [lia|exact E1].
+      + exists 2%nat. split; [lia|]. rewrite E1 at 1. rewrite E2 at 1. rewrite <- app_assoc. reflexivity. }
+  destruct Sh as [j [Hj Es]]. clearbody s'. unfold pad_to. rewrite Es. f_equal. f_equal.
+  rewrite Es, app_length, repeat_length in L4.
+  pose proof (Nat.div_mod (length s') 4 ltac:(lia)) as DM.
+  pose proof (Nat.mod_upper_bound (length s') 4 ltac:(lia)) as B.
+  assert (Hm : ((length s' mod 4 + j) mod 4 = 0)%nat).
+  { rewrite Nat.add_mod_idemp_l by lia. exact L4. }
+  (* the decoder would have rejected a remainder of 1 (6 leftover bits) *)
+  destruct (length s' mod 4)%nat as [|[|[|[|k]]]] eqn:M; try lia;
+    destruct j as [|[|[|j]]]; try lia; cbn in Hm |- *; try lia; try reflexivity.
+Qed.
